@@ -169,10 +169,10 @@ def main(tier):
                              key='P-NO-RETAIN-ASM|%s|%s' % (sym, tag_name(a.addr)), sample='%s: next_in written back to its own field' % sym if home and sym.endswith('_01') else None)
             if n == 0:
                 RN.ok(1)
-    check_c_loads(rep)
+    rep.attempt(check_c_loads, rep)
     import bounds
-    bounds.check(rep, {'raid_pq_gen', 'raid_pq_check', 'ec_dot_prod', 'ec_mad', 'ec_mul', 'mem_zero'}, 'BLOCK', 77)
-    bounds.check(rep, {'crc', 'crc_copy', 'adler'}, 'CRC', 30)
+    rep.attempt(bounds.check, rep, {'raid_pq_gen', 'raid_pq_check', 'ec_dot_prod', 'ec_mad', 'ec_mul', 'mem_zero'}, 'BLOCK', 77)
+    rep.attempt(bounds.check, rep, {'crc', 'crc_copy', 'adler'}, 'CRC', 30)
     rep.analysed.update(asm_units=len(units), kernels=len(res), families=sorted({i['fam']['family'] for i in res.values()}),
                         memory_operands=sum(len(i['accesses']) for i in res.values()))
     return rep.finish()
